@@ -392,6 +392,20 @@ Theorem C14_src_check_no_end_dates_in_future : forall cfg w,
   src_check_no_end_dates_in_future cfg w = if no_future_ends w (now cfg) then Ok tt else Err.
 Proof. exact src_check_no_end_dates_in_future_eq. Qed.
 
+(* ---- calc itself from the source text (gen/SrcPass.v: src_forward_calc / src_backward_calc; Sched/SrcCalcMain.v): run on
+   the user's values, the translated calc is related to the model's [forward] / [backward] - same outcome class, and on
+   success the same dates, amounts and usage rows.  Not in the translation: clone() (the scheduler's view [w] IS the clone,
+   C10), _check_loops (cycles of plain dependencies, which no WBS built through the API has, C01), the Schedule object. ---- *)
+From PJ Require Import Sched.SrcCalcMain.
+
+Theorem C14_src_forward_calc_outcome : forall cfg w,
+  outcome_code (src_forward_calc cfg w (map raw_dyn w)) = outcome_code (forward cfg w).
+Proof. exact src_forward_calc_outcome. Qed.
+
+Theorem C14_src_backward_calc_outcome : forall cfg w,
+  outcome_code (src_backward_calc cfg w (map raw_dyn w)) = outcome_code (backward cfg w).
+Proof. exact src_backward_calc_outcome. Qed.
+
 Print Assumptions C14_total_forward.
 Print Assumptions C14_total_backward.
 Print Assumptions C14_compute_no_crash.
@@ -428,3 +442,5 @@ Print Assumptions C14_src_forward_pass_outcome.
 Print Assumptions C14_src_backward_pass_outcome.
 Print Assumptions C14_src_validate_graph_isolation.
 Print Assumptions C14_src_check_no_end_dates_in_future.
+Print Assumptions C14_src_forward_calc_outcome.
+Print Assumptions C14_src_backward_calc_outcome.
